@@ -350,6 +350,31 @@ def _pad_close(xs, ys, tol):
     return close_list(xs, ys, tol)
 
 
+EPS = F(1, 10**16)
+SAFETY = 1000
+
+
+def _float_err(*ks_lists):
+    """Estimated absolute error of a float-contaminated step-down whose exact reflection coefficients
+    are known: eps * n * (largest coefficient of the intermediate filters) * prod max(1, 1/|1-|k||),
+    times a safety factor (calibrated on the real code: the plain estimate was 30x too small once)."""
+    worst = F(0)
+    for ks in ks_lists:
+        ks = [k for k in ks]
+        if not ks:
+            continue
+        amp, big, a = F(1), F(1), [F(1)]
+        for k in reversed(ks):            # yielded last first: rebuild the intermediate filters
+            if abs(k) == 1:
+                return F(1)
+            amp *= max(F(1), 1 / abs(1 - abs(k)))
+            ext = a + [F(0)]
+            a = [x + k * y for x, y in zip(ext, ext[::-1])]
+            big = max(big, max(abs(x) for x in a))
+        worst = max(worst, EPS * len(ks) * big * amp * SAFETY)
+    return worst
+
+
 def _critical(ks):
     """some |k| within MARGIN of 1 (a float-contaminated run may fall on either side)"""
     return any(abs(abs(k) - 1) < MARGIN for k in ks)
@@ -367,8 +392,10 @@ def compare(c, io, drv):
                 out.append(("spec", "impl raised " + io["err"]))
             return out
         tol = TOL if io["float"] else 0
-        skip = io["float"] and _critical(decl(drv["spec"]["ks"]) + decl(m["ks"]))
-        if skip:
+        io["compared"] = "tol 1e-9" if io["float"] else "exact"
+        if io["float"] and (_critical(decl(drv["spec"]["ks"]) + decl(m["ks"])) or
+                            _float_err(decl(drv["spec"]["ks"]), decl(m["ks"])) > TOL / 10):
+            io["compared"] = "not compared (float leak, ill conditioned)"
             return out
         if not _same_ks(io, m, tol) and not _same_ks(io, drv["fixed"], tol):
             out.append(("model", "parcor yields %r raised=%s; model %r" % (io["ks"], io["raised"], m)))
@@ -395,7 +422,10 @@ def compare(c, io, drv):
             out.append(("model", "harness product of the factors differs from ALV.C11.fromPoles"))
         if e == "stable" and drv["spec"] != drv["inside"]:
             out.append(("model", "Lean parcorStableSpec disagrees with the construction (Schur-Cohn tie)"))
-        if io["float"] and _critical(decl(drv["ks"]["ks"]) + decl(drv["ks_model"]["ks"])):
+        io["compared"] = "float, verdict" if io["float"] else "exact"
+        if io["float"] and (_critical(decl(drv["ks"]["ks"]) + decl(drv["ks_model"]["ks"])) or
+                            _float_err(decl(drv["ks"]["ks"]), decl(drv["ks_model"]["ks"])) > MARGIN / 10):
+            io["compared"] = "not compared (float leak, ill conditioned)"
             return out
         if io["stable"] != drv["model"] and io["stable"] != drv["fixed"]:
             out.append(("model", "parcor_stable=%s model=%s" % (io["stable"], drv["model"])))
@@ -412,8 +442,10 @@ def compare(c, io, drv):
             return out
         s = drv["spec"]
         ks = decl(m["ks"])
-        if any(abs(1 - k * k) < F(1, 20) for k in ks):
-            return out          # ill conditioned in floating point: not compared
+        io["compared"] = "tol 1e-9"
+        if any(abs(1 - k * k) < F(1, 20) for k in ks) or _float_err(ks[::-1]) > TOL / 10:
+            io["compared"] = "not compared (float, ill conditioned)"
+            return out
         if not _pad_close(decl(io["a"]), decl(m["a"]), TOL) or not close(dec(io["error"]), dec(m["error"]), TOL):
             out.append(("model", "levinson_durbin numerator/error differ from model: %r %r" % (io["a"], io["error"])))
         if not close(dec(io["error"]), dec(s["error"]), TOL):
@@ -447,6 +479,7 @@ def nontrivial(c, io):
 def tally(eng, c, io):
     e = c["entry"]
     eng.count("entry", e)
+    eng.count("compared:" + e, io.get("compared", "error branch"))
     eng.count("order", min(_order(c), 12))
     if "err" in io:
         eng.count("impl_error", io["err"])
@@ -473,6 +506,8 @@ def tally(eng, c, io):
                       "all-inside" if all(m < 1 for m in mods) else "some-outside")
             eng.count("gain", "1" if dec(c["gain"]) == 1 else "non-1")
     elif e == "levinson":
+        eng.count("regime", "float (Poly zero 0. always leaks into levinson_durbin)")
+        eng.count("levinson_parcor", "ParCorError" if io["parcor"].get("raised") else "completed")
         eng.count("levinson", "order>=len(r)" if c["order"] >= len(c["r"]) else
                   "order=len(r)-1" if c["order"] == len(c["r"]) - 1 else "order<len(r)-1")
 
